@@ -188,7 +188,7 @@ impl Prop for C07 {
         "C07"
     }
     fn rule(&self) -> String {
-        "each seeded random history (all key types, values up to 1 MiB, iterations, batches, statistics calls) is executed under k=4 (thorough: 10) generated parameter sets from {BucketsSize|Capacity in 1..65536} x {Auto, PerMille(1000|2000|p<1000), Size(0|1|131072|262144|300000|1 MiB)} per file, always including one table below 8 buckets, one of >= 128 buckets and one set of minimal fixed buffers; every run is compared call by call with the one model (hence pairwise agreement), then the image is closed, decoded, reopened under the NEXT parameter set of the tuple (contents, len, iteration vs model) and the header's bucket count must still be the one of creation. evaluations counts (history, tuple) cases; label parameter_sets counts runs. Non-trivial: the tuple has >= 3 distinct table sizes and at least one run in which a file outgrew its buffer budget (eviction forced); distinct by case digest. PerMille(p<1000) on a file that can exceed 128 KiB is excluded (known finding D6b) and counted in excluded_draws."
+        "each seeded random history (all key types, values up to 1 MiB, iterations, batches, statistics calls; in every third case handle churn incl. asking for the open map again through db_map_X_with_params with other parameters, which are ignored) is executed under k=4 (thorough: 10) generated parameter sets from {BucketsSize|Capacity in 1..65536} x {Auto, PerMille(1000|2000|p<1000), Size(0|1|131072|262144|300000|1 MiB)} per file, always including one table below 8 buckets, one of >= 128 buckets and one set of minimal fixed buffers; every run is compared call by call with the one model (hence pairwise agreement), then the image is closed, decoded, reopened under the NEXT parameter set of the tuple (contents, len, iteration vs model) and the header's bucket count must still be the one of creation. evaluations counts (history, tuple) cases; label parameter_sets counts runs. Non-trivial: the tuple has >= 3 distinct table sizes and at least one run in which a file outgrew its buffer budget (eviction forced); distinct by case digest. PerMille(p<1000) on a file that can exceed 128 KiB is excluded (known finding D6b) and counted in excluded_draws."
             .to_string()
     }
     fn assumptions(&self) -> Vec<String> {
